@@ -513,6 +513,22 @@ def proof_coverage(rep, coq, extra_tb=()):
         "coq_files": coq.get("files", []),
         "coq_wall_s": round(coq.get("wall_s", 0), 1),
     })
+    if rep.tier == "thorough" and coq.get("ok"):
+        coqchk(rep)
+
+
+def coqchk(rep):
+    """thorough tier: re-check the compiled property file and everything it depends on with the independent checker"""
+    try:
+        p = subprocess.run(["coqchk", "-silent", "-o", "-Q", "theories", "RP", "RP.Props.%s" % rep.pid], cwd=COQ, stdout=subprocess.PIPE,
+                           stderr=subprocess.STDOUT, text=True, timeout=1500)
+        out = p.stdout
+        ok = p.returncode == 0 and "* Axioms: <none>" in out and "type-in-type: <none>" in out and "unsafe (co)fixpoints: <none>" in out and "positivity is assumed: <none>" in out
+        rep.coverage["coqchk"] = {"ok": ok, "summary": " ".join(out.split())[-400:]}
+        if not ok:
+            rep.broken_obligation("coqchk does not accept Props/%s.vo with an empty context summary" % rep.pid, out[-2000:])
+    except (OSError, subprocess.TimeoutExpired) as e:
+        rep.coverage["coqchk"] = {"ok": False, "summary": "not run: %s" % e}
 
 
 def handle_coq_result(rep, coq):
